@@ -177,20 +177,29 @@ def run(tier):
         if ri.violated:
             ck.violation({'kind': 'history', 'inputs': {'spec': 'SemIdentity'}, 'expected': 'ActionsOfGivenObject, TypeOK', 'observed': ri.violated,
                           'trace': ri.trace[:40]}, key='semid' + str(ri.violated))
-        rb = tlc.run_tlc('SemIdentity', cfg='SemIdentityById', timeout=600)
-        ck.notes['by_address_design_refuted'] = rb.violated
-        if not rb.violated:
-            raise tlc.MachineryError('SemIdentity: the by-address design is not refuted (vacuous model)')
-        dumpc = os.path.join(d, 'semid.cfg')
-        open(dumpc, 'w').write('CONSTANTS Objects = {"p1", "t1", "t2"}\nAddrs = {"A", "B"}\nById = TRUE\nMaxSteps = 6\nSPECIFICATION Spec\nCHECK_DEADLOCK FALSE\n')
-        doti = os.path.join(d, 'gi')
-        tlc.run_tlc('SemIdentity', cfg=dumpc, workers=1, dump_dot=doti, timeout=600)
-        gi = Graph(doti + '.dot')
-        ipaths = gi.edge_cover_paths(is_final=lambda n: True)
-        ipaths = [pp for pp in ipaths if any(lbl.startswith('Parse') for lbl, _n in pp[1])]
-        if tier == 'quick':
-            ipaths = ipaths[ck.seed % 3::3]
-        icases = [{'path': [[lbl, gi.states[n]] for lbl, n in pp[1]]} for pp in ipaths]
+        for cfgname, label in (('SemIdentityById', 'by_address_design_refuted'), ('SemIdentityByEq', 'by_equality_design_refuted')):
+            rb = tlc.run_tlc('SemIdentity', cfg=cfgname, timeout=600)
+            ck.notes[label] = rb.violated
+            if not rb.violated:
+                raise tlc.MachineryError(f'SemIdentity: the design {cfgname} is not refuted (vacuous model)')
+        icases = []
+        for objects, addrs, keyby, truth, maxsteps, stride in (('{"p1", "t1", "t2"}', '{"A", "B"}', 'address', 'FALSE', 6, 3),
+                                                               ('{"e1", "e2", "u1", "f1"}', '{"A", "B", "C", "D"}', 'equality', 'TRUE', 4, 2)):
+            dumpc = os.path.join(d, f'semid_{keyby}.cfg')
+            open(dumpc, 'w').write(f'CONSTANTS Objects = {objects}\nAddrs = {addrs}\nKeyBy = "{keyby}"\nTruthTest = {truth}\n'
+                                   f'MaxSteps = {maxsteps}\nSPECIFICATION Spec\nCHECK_DEADLOCK FALSE\n')
+            doti = os.path.join(d, f'gi_{keyby}')
+            tlc.run_tlc('SemIdentity', cfg=dumpc, workers=1, dump_dot=doti, timeout=600)
+            gi = Graph(doti + '.dot')
+            ipaths = gi.edge_cover_paths(is_final=lambda n: True)
+            ipaths = [pp for pp in ipaths if any(lbl.startswith('Parse') for lbl, _n in pp[1])]
+            if keyby == 'equality':          # addresses play no part in this design: one behaviour per sequence of action labels
+                ipaths = list({tuple(lbl for lbl, _n in pp[1]): pp for pp in ipaths}.values())
+                stride = 1
+            ck.notes.setdefault('identity_graphs', []).append({'KeyBy': keyby, 'states': len(gi.states), 'behaviours': len(ipaths)})
+            if tier == 'quick':
+                ipaths = ipaths[ck.seed % stride::stride]
+            icases += [{'path': [[lbl, gi.states[n]] for lbl, n in pp[1]]} for pp in ipaths]
         ires = pmap(run_identity, icases, procs=16, chunk=1, recycle=1)
         nre = 0
         for ic, io in zip(icases, ires):
@@ -198,8 +207,9 @@ def run(tier):
             nre += io['reused']
             for b in io['bad']:
                 ck.violation({'kind': 'history', 'inputs': {'history': b['history']}, 'expected': b['expected'], 'observed': b['observed'],
-                              'why': f"model.parse(text, semantics=<{b['object']}>) ran the actions of another semantics object (its address was "
-                                     'used by an earlier object)', 'spec': 'SemIdentity!ActionsOfGivenObject'}, key='semid' + b['object'] + b['observed'])
+                              'why': f"model.parse(text, semantics=<{b['object']}>) did not run the actions of the semantics object it was given "
+                                     '(p*: no action, t*: tagging action, e1/e2: equal objects with different tags, u1: unhashable, f1: falsy)',
+                              'spec': 'SemIdentity!ActionsOfGivenObject'}, key='semid' + b['object'] + b['observed'][:30])
         ck.notes['identity_histories'] = len(icases)
         ck.notes['identity_address_reuses_achieved'] = nre
         # a long-lived generated parser object: every ordered pair of per-call settings
